@@ -47,6 +47,7 @@ EXPECTED_MISSES = {
 
 # (id, property, expected rule prefix, edits)
 FIRE: List[Tuple[str, str, str, List[Tuple[str, str, str]]]] = [
+    ("post-init-does-not-mark-fieldless-children", "C18", "Y14", [(I, "                if isinstance(value, Message) and not value._betterproto.meta_by_field_name:\n                    # A field-less message carries nothing but its presence. A\n                    # constructor that stores its arguments without going through\n                    # __setattr__ (pydantic dataclasses) has not marked it yet.\n                    value._serialized_on_wire = True\n\n", "")]),
     ("is-set-merged-branches-default-true", "C14", "V7", [(I, "        if isinstance(value, Message):\n            return value._serialized_on_wire or bool(value)\n        if isinstance(value, (list, dict)):\n            return bool(value)\n", "        if isinstance(value, (Message, list, dict)):\n            return bool(value) or getattr(value, \"_serialized_on_wire\", True)\n")]),
     ("comment-escaped-quote-escaped-again", "C03", "P11", [(MD, "                body = lines[-1][:-1]\n                # a quote that the replacement above already escaped (odd number of\n                # backslashes in front of it) must not get a second backslash\n                if (len(body) - len(body.rstrip(\"\\\\\"))) % 2 == 0:\n                    lines[-1] = body + '\\\\\"'\n", "                lines[-1] = lines[-1][:-1] + '\\\\\"'\n")]),
     ("sanitize-name-keyword-test-lowercased", "C19", "I1", [("src/betterproto/casing.py", "    if keyword.iskeyword(value):\n", "    if keyword.iskeyword(value.lower()):\n")]),
